@@ -3,6 +3,7 @@ package props
 import (
 	"fmt"
 	"strings"
+	"sync/atomic"
 	"testing"
 	"time"
 
@@ -31,6 +32,13 @@ type C18Case struct {
 
 type c18Host struct{ F0, F1, F2, F3, F4, F5, F6, F7 int64 }
 
+// c18Nest holds one nested struct by value and one through a pointer: children of a block
+// assign distinct fields of the same nested struct (three-level targets).
+type c18Nest struct {
+	V c18Host
+	P *c18Host
+}
+
 type c18Obj struct {
 	act func(id int64) int64
 	In  *c18Obj
@@ -56,6 +64,18 @@ func (c *C18Case) text() string {
 				fmt.Fprintf(&b, "    a%d = %s\n", ch.ID, call)
 			case "field":
 				fmt.Fprintf(&b, "    H.F%d = %s\n", ch.ID%8, call)
+			case "nested": // distinct fields of a nested struct held by value; the children meet at a barrier just before they store
+				if ch.Fails != "" {
+					fmt.Fprintf(&b, "    N.V.F%d = %s\n", ch.ID%8, call)
+				} else {
+					fmt.Fprintf(&b, "    N.V.F%d = valb(%d)\n", ch.ID%8, ch.ID)
+				}
+			case "nestedp": // the same through a pointer field
+				if ch.Fails != "" {
+					fmt.Fprintf(&b, "    N.P.F%d = %s\n", ch.ID%8, call)
+				} else {
+					fmt.Fprintf(&b, "    N.P.F%d = valb(%d)\n", ch.ID%8, ch.ID)
+				}
 			case "func":
 				if ch.Fails == "type" {
 					fmt.Fprintf(&b, "    val(%d, \"extra\")\n", ch.ID)
@@ -111,6 +131,10 @@ func (c *C18Case) text() string {
 				fmt.Fprintf(&b, "  rd(%d, a%d)\n", ch.ID, ch.ID)
 			case "field":
 				fmt.Fprintf(&b, "  rd(%d, H.F%d)\n", ch.ID, ch.ID%8)
+			case "nested":
+				fmt.Fprintf(&b, "  rd(%d, N.V.F%d)\n", ch.ID, ch.ID%8)
+			case "nestedp":
+				fmt.Fprintf(&b, "  rd(%d, N.P.F%d)\n", ch.ID, ch.ID%8)
 			}
 		}
 	}
@@ -123,13 +147,14 @@ func (o *c18Obj) Bad(id int64) int64 { o.act(-id); panic("injected method failur
 func init() {
 	register(&Prop{
 		ID:   "C18",
-		Rule: "one rule with 1-3 conc blocks of 0-6 children of all four kinds (assignments to distinct locals and to distinct fields of an injected struct whose right-hand side is an observable call, function, method and three-level calls, each with a unique id), a generated failing subset (panicking function/method, type fault, wrong arity), after each block an observer call and reads of every local and field assigned inside; children parked on Hold gates until the event log is quiet, others yielding; oracle: each child ran exactly once, every child's finish event precedes the block's after-event, values read after the block are the children's values, with a failing child the rule fails, every other child of that block has finished when Execute returns and nothing after the block runs. Non-trivial: a block with >= 3 children of >= 2 kinds and a parked child, or a failing child next to a parked sibling; distinct by case hash",
+		Rule: "one rule with 1-3 conc blocks of 0-6 children of all four kinds (assignments to distinct locals, to distinct fields of an injected struct and to distinct fields of one nested struct (held by value or through a pointer; such children meet at a bounded rendezvous so that their stores overlap) whose right-hand side is an observable call, function, method and three-level calls, each with a unique id), a generated failing subset (panicking function/method, type fault, wrong arity), after each block an observer call and reads of every local and field assigned inside; children parked on Hold gates until the event log is quiet, others yielding; oracle: each child ran exactly once, every child's finish event precedes the block's after-event, values read after the block are the children's values, with a failing child the rule fails, every other child of that block has finished when Execute returns and nothing after the block runs. Non-trivial: a block with >= 3 children of >= 2 kinds and a parked child, or a failing child next to a parked sibling; distinct by case hash",
 		New:  func() interface{} { return &C18Case{} },
 		Gen: func(t *rapid.T) interface{} {
 			c := &C18Case{QuiesMs: quiesMs(), Pool: pct(t, "pool", 25)}
 			nb := uni(t, "nblocks", 1, 3)
 			id := int64(0)
 			usedField := map[int64]bool{}
+			usedNested := map[string]bool{}
 			failBlock := -1
 			if pct(t, "has_failure", 35) {
 				failBlock = uni(t, "failblock", 0, nb-1)
@@ -140,11 +165,26 @@ func init() {
 					n = uni(t, fmt.Sprintf("nkids2_%d", bi), 3, 6)
 				}
 				var blk []C18Child
+				nestedBlock := pct(t, fmt.Sprintf("nestedblock%d", bi), 20)
+				if nestedBlock && n < 3 {
+					n = uni(t, fmt.Sprintf("nkids3_%d", bi), 3, 6)
+				}
 				for k := 0; k < n; k++ {
 					id++
-					kind := []string{"local", "local", "field", "func", "method", "three", "method-local", "three-local", "func-local-arg", "lit", "lit"}[uni(t, fmt.Sprintf("kind%d_%d", bi, k), 0, 10)]
+					kind := []string{"local", "local", "field", "func", "method", "three", "method-local", "three-local", "func-local-arg", "lit", "lit", "nested", "nestedp"}[uni(t, fmt.Sprintf("kind%d_%d", bi, k), 0, 12)]
 					if pct(t, fmt.Sprintf("alllit%d", bi), 8) {
 						kind = "lit" // blocks made of literal assignments only
+					}
+					if nestedBlock {
+						// all children store into the same nested struct
+						kind = []string{"nested", "nested", "nested", "nestedp"}[uni(t, fmt.Sprintf("nkind%d_%d", bi, k), 0, 3)]
+					}
+					if kind == "nested" || kind == "nestedp" {
+						key := fmt.Sprintf("%s%d", kind, id%8)
+						if usedNested[key] {
+							kind = "local"
+						}
+						usedNested[key] = true
 					}
 					if kind == "field" {
 						if usedField[id%8] {
@@ -154,6 +194,8 @@ func init() {
 					}
 					ch := C18Child{Kind: kind, ID: id}
 					switch {
+					case kind == "nested" || kind == "nestedp":
+						// these meet at a barrier instead of a gate
 					case pct(t, fmt.Sprintf("hold%d_%d", bi, k), 30):
 						ch.Gate = obs.Hold
 					case pct(t, fmt.Sprintf("yield%d_%d", bi, k), 40):
@@ -195,6 +237,29 @@ func checkC18(ci interface{}, x *Ctx) {
 		return id * 10
 	}
 	apis["val"] = act
+	// valb: the nested-field children of one block wait for each other (bounded) and then
+	// return together, so that their stores into the same nested struct overlap
+	blockOf, expect := map[int64]int{}, map[int]int64{}
+	for bi, blk := range c.Blocks {
+		for _, ch := range blk {
+			if (ch.Kind == "nested" || ch.Kind == "nestedp") && ch.Fails == "" {
+				blockOf[ch.ID] = bi
+				expect[bi]++
+			}
+		}
+	}
+	arrivedAt := make([]int64, len(c.Blocks))
+	apis["valb"] = func(id int64) int64 {
+		env.log.Add("V", fmt.Sprint(id), 0)
+		b := blockOf[id]
+		atomic.AddInt64(&arrivedAt[b], 1)
+		for start := time.Now(); atomic.LoadInt64(&arrivedAt[b]) < expect[b] && time.Since(start) < 2*time.Millisecond; {
+		}
+		env.log.Add("D", fmt.Sprint(id), 0)
+		return id * 10
+	}
+	nest := &c18Nest{P: &c18Host{}}
+	apis["N"] = nest
 	apis["bad"] = func(id int64) int64 { env.log.Add("B", fmt.Sprint(id), 0); panic("injected failure") }
 	apis["after"] = func(b int64) { env.log.Add("AFTER", fmt.Sprint(b), 0) }
 	apis["rd"] = func(id, v int64) { env.log.Add("RD", fmt.Sprint(id), v) }
@@ -303,7 +368,7 @@ func checkC18(ci interface{}, x *Ctx) {
 				fail("child-count:"+ch.Kind, "child %s (%s) of block %d ran %d times, want exactly once", id, ch.Kind, bi, ran)
 				return
 			}
-			if ch.Kind != "lit" && (ch.Fails == "" || (ch.Fails == "type" && (ch.Kind == "local" || ch.Kind == "field"))) {
+			if ch.Kind != "lit" && (ch.Fails == "" || (ch.Fails == "type" && (ch.Kind == "local" || ch.Kind == "field" || ch.Kind == "nested" || ch.Kind == "nestedp"))) {
 				d := seqOf["D:"+id]
 				if len(d) != 1 {
 					fail("child-unfinished:"+ch.Kind, "child %s (%s) of block %d had not finished when Execute returned (the block must wait for all of its statements)", id, ch.Kind, bi)
@@ -332,8 +397,11 @@ func checkC18(ci interface{}, x *Ctx) {
 				return
 			}
 			for _, ch := range blk {
-				if ch.Kind != "local" && ch.Kind != "field" && ch.Kind != "lit" {
+				if ch.Kind != "local" && ch.Kind != "field" && ch.Kind != "lit" && ch.Kind != "nested" && ch.Kind != "nestedp" {
 					continue
+				}
+				if ch.Kind == "nested" && expect[bi] >= 2 {
+					x.Class("block-with->=2-stores-into-one-nested-struct-held-by-value")
 				}
 				rd := -1
 				for _, e := range trace {
